@@ -84,12 +84,18 @@ def main(tier):
     bld = maps_build()
     cfgs = [(16, 6.0), (16, 6.5)] if tier == 'quick' else [(16, 6.0), (16, 6.5), (17, 6.0), (20, 7.3)]
     jobs = [(job_moments, (n, ft, dt, pm)) for n, pm in cfgs for ft in (0, 1, 2, 3) for dt in (3, 4)] + [(job_consequences, ())]
+    # transport side: kick and drift reproduce polynomials of degree <= 2 (so they transport second moments exactly) for >= 3 interpolation points
+    import c02
+    jobs += [(c02.job_poly, (n, it, axis, r, 1)) for n in (10, 11) for it in (3, 4) for axis in (0, 1) for r in (2, 6)]
     chk.bounds = {'operator': 'real constructor run from IR, symbolic e1 in (0,1/4], grids %s with centred and shifted energy axis, one symbolic data column, support >= 2 rows from the border and (4-point) away from the 4 rows around the stencil switch' % [c[0] for c in cfgs],
                   'convergence': 'derived from the one-step recurrences by the solver; iteration over many damping times is not executed'}
     chk.assumptions = ['floats as reals (tolerance 1e-5*sum|f|)', 'the transport part (kick/drift) reproduces second moments for >= 3 interpolation points (C02 polynomial obligation); for 2 points it adds f(1-f) <= 1/4 cell^2 per step',
                        'e1 = 2/(fs*t_damp*steps) in main is a tier-2 obligation (not in this check)', 'coupled q-p relaxation, stability limit of the explicit scheme and float drift are outside the claim']
     chk.stubs = ['operator new/delete', 'random_device fixed seed', 'sqrt(2*e1) uninterpreted']
-    chk.replayer = replayer(bld)
+    import c02 as _c02
+    _r4 = replayer(bld); _r2 = _c02.replayer(bld)
+    chk.replayer = lambda path, c: (_r2 if c.get('replay') == 'poly' else _r4)(path, c)
+    _unused = None
     chk.add(run_jobs(jobs, budget=600))
     chk.finish()
 
